@@ -6,6 +6,7 @@ import z3
 from .core import (bv, sbv, bytes_of, from_bytes, simp, conc, is_sym, Outcome, Unsupported, PathCtl)
 from .pspec import WIDTH, Msg
 from . import ref as refmod
+from . import core as _core
 
 SIGNED = {'i8', 'i16', 'i32', 'i64'}
 EXTW = 72
@@ -160,6 +161,9 @@ class PyFE:
                 if x.signed and c >= 1 << (x.t.size() - 1):
                     c -= 1 << x.t.size()
                 return c
+            if z3.is_bv(x.t):
+                u = self.ctl.concretise(x.t)
+                return u - (1 << x.t.size()) if (x.signed and u >> (x.t.size() - 1)) else u
         raise Unsupported('symbolic integer where a concrete one is needed')
 
     def _len(self, x):
@@ -348,8 +352,8 @@ class PyFE:
             n = 0
             for i in it:
                 n += 1
-                if n > 64:
-                    raise Outcome('unwind', 'loop bound 64 exceeded')
+                if n > _core.LOOP_BOUND[0]:
+                    raise Outcome('unwind', 'loop bound %d exceeded' % _core.LOOP_BOUND[0])
                 env[st.target.id] = i
                 self.block(st.body, env)
         elif isinstance(st, ast.If):
